@@ -90,6 +90,35 @@ theorem sorted_position_weight_indep (s1 s2 : List ℝ → List Nat) (hp1 : Sort
   have h := congrArg (fun l : List ℝ => l[p]?) (sortedW_unique s1 s2 hp1 ha1 hp2 ha2 w)
   simpa [sortedW, List.getElem?_map] using h
 
+/-! #### refinement: "sort the weights, drop the `k` lowest, normalise, resample, prepend `k` fresh draws" -/
+
+/-- specification of the parent vector of the prior variant, written on weight *values* only (no indices, no
+    particles, no tie-breaking): sort the log-weights, drop the `k` lowest, normalise, select systematically,
+    offset by `k`, prepend `k` times `-1` -/
+noncomputable def rwpSpecParents (fl : ℝ → Nat) (ratio : ℝ) (w : List ℝ) (u1 : ℝ) : List Int :=
+  let k := fl ((w.length : ℝ) * ratio)
+  let kept := (w.mergeSort (fun a b => decide (a ≤ b))).drop k
+  List.replicate k (-1) ++
+    (resampleIdx ((normalizeLog kept).map Real.exp) u1).map (fun (p : Nat) => (p : Int) + (k : Int))
+
+theorem sortedW_eq_mergeSort (sortIdx : List ℝ → List Nat) (hp : SortPerm sortIdx) (ha : SortAsc sortIdx) (w : List ℝ) :
+    sortedW sortIdx w = w.mergeSort (fun a b => decide (a ≤ b)) := by
+  apply List.Perm.eq_of_pairwise' (r := (· ≤ ·)) (sortedW_pairwise sortIdx hp ha w)
+  · have := List.pairwise_mergeSort (le := fun (a b : ℝ) => decide (a ≤ b))
+      (fun x y z h1 h2 => by simp only [decide_eq_true_eq] at h1 h2 ⊢; exact le_trans h1 h2)
+      (fun x y => by simp only [Bool.or_eq_true, decide_eq_true_eq]; exact le_total _ _) w
+    exact this.imp (fun h => by simpa using h)
+  · exact (sortedW_perm sortIdx hp w).trans (List.mergeSort_perm _ _).symm
+
+/-- the model of `ResamplingWithPrior::resample` refines the specification, for every admissible sort -/
+theorem rwp_refines_spec (fl : ℝ → Nat) (sortIdx : List ℝ → List Nat) (hp : SortPerm sortIdx) (ha : SortAsc sortIdx)
+    (init : PSet π ℝ → PSet π ℝ) (ratio : ℝ) (cor : PSet π ℝ) (u1 : ℝ) (hc : cor.logw.length = cor.parts.length) :
+    (resampleWithPrior fl sortIdx init ratio cor u1).2 = rwpSpecParents fl ratio cor.logw u1 := by
+  have hk : numPrior fl ratio cor = fl ((cor.logw.length : ℝ) * ratio) := by simp [numPrior, hc]
+  rw [rwp_parents, resample_parents, priorTmp_logw_eq, sortedW_eq_mergeSort sortIdx hp ha, hk]
+  simp only [rwpSpecParents, List.map_map]
+  rfl
+
 /-! #### the contracts are satisfiable: a (stable) merge sort of the indices by weight is admissible -/
 
 /-- `sort_indices` as a merge sort of `0 … N-1` by ascending value -/
